@@ -149,7 +149,7 @@ def run(chk):
     chk.out_of_claim('MOSTLY OUTSIDE: get_matrix_orthogonal_basis (SVD / eigh), its complement and dimension count, numerical ranges (eigh / optimiser), tripartite completely-entangled tests, '
                      'the LU pivots themselves (scipy.linalg.lu), sizes above the stated ones')
     chk.bound(rank_one_detector='threshold logic for every value the numerical-range kernel may return within 1e-10 of the exact maximum t=1',
-              hierarchy='sizes 2x2 and 2x3, 2 generators, planted element of rank 1, hierarchy level k=1 (k=2 thorough)', bases='(d,r) with d<=4, r<=3 (ground)')
+              hierarchy='(dA,dB,generators,rank bound,k): quick (2,2,2,2,1),(2,3,2,2,1),(3,3,2,3,1),(3,3,2,2,2); thorough adds (3,3,2,3,2),(3,3,3,2,1),(3,4,2,3,1),(2,2,2,2,3); the planted combination has coefficient 1 on one stated generator, all other generators and coefficients symbolic', bases='(d,r) with d<=4, r<=3 (ground)')
     # ---- (a) decision logic of the rank-one detector under kernel error
     chk.configurations += 1
     ms = np.stack([np.outer([1.0, 2.0], [1.0, -1.0]), np.array([[0.0, 1.0], [1.0, 0.0]])])
@@ -176,25 +176,28 @@ def run(chk):
                 path.pc + path.facts, ir.bconst(bool(tag)), key="detect_real_matrix_subspace_rank_one: 'no rank-one element' for a subspace containing one", replay=rp)
     chk.stub('get_matrix_orthogonal_basis -> normalised input (its SVD is outside); get_real_bipartite_numerical_range -> any v with |v - 1| <= 1e-10 '
              '(1 is the exact bipartite maximum of the projector whenever the subspace contains a rank-one element)')
-    # ---- (b) hierarchy certificate: the matrix whose LU pivots are tested is singular when the subspace contains an element of rank < bound
-    cfgs = [(2, 2, 2, 2, 1), (2, 3, 2, 2, 1)] + ([] if quick else [(3, 3, 2, 2, 1), (2, 2, 2, 2, 2), (3, 3, 2, 3, 1)])
-    for dA, dB, ngen, rank, kk in cfgs:
+    # ---- (b) hierarchy certificate: the matrix whose LU pivots are tested is singular when the subspace contains an element of rank < bound.
+    #      Subspace: generators G_j arbitrary symbolic except one, G_p = low - sum_{j != p} b_j G_j, so that low = sum_j b_j G_j (b_p = 1) has rank (bound-1).
+    #      Claim: the explicit non-zero vector c_INDEX = multinomial(INDEX) prod_{i in INDEX} b_i (the symmetric power of b) satisfies c^T matAAT == 0.
+    cfgs = [(2, 2, 2, 2, 1, 0), (2, 3, 2, 2, 1, 1), (3, 3, 2, 3, 1, 0), (3, 3, 2, 2, 2, 0)] + ([] if quick else [(3, 3, 2, 3, 2, 0), (3, 3, 2, 3, 2, 1), (3, 3, 3, 2, 1, 2), (3, 4, 2, 3, 1, 0), (2, 2, 2, 2, 3, 0)])
+    for dA, dB, ngen, rank, kk, piv in cfgs:
         chk.configurations += 1
-        tag_ = f'h{dA}{dB}{ngen}{rank}{kk}_'
-        # planted element of rank (rank-1), hidden by an invertible symbolic mixing of the generators
+        tag_ = f'h{dA}{dB}{ngen}{rank}{kk}{piv}_'
         low = np.zeros((dA, dB), dtype=object)
         for t in range(rank - 1):
             u = H.re_array(tag_ + f'u{t}_', dA)
             v = H.re_array(tag_ + f'v{t}_', dB)
             low = low + np.outer(A.plain(u), A.plain(v))
-        gens = [low] + [A.plain(H.re_array(tag_ + f'g{j}_', (dA, dB))) for j in range(ngen - 1)]
-        mix = A.plain(H.re_array(tag_ + 'm_', (ngen, ngen)))
+        bco = [S.as_sc(1) if j == piv else S.sc_var(tag_ + f'b{j}') for j in range(ngen)]
+        gens = [None if j == piv else A.plain(H.re_array(tag_ + f'g{j}_', (dA, dB))) for j in range(ngen)]
+        acc = low
+        for j in range(ngen):
+            if j != piv:
+                acc = acc - bco[j] * gens[j]
+        gens[piv] = acc
         sub = np.empty((ngen, dA, dB), dtype=object)
-        for i in range(ngen):
-            acc = np.zeros((dA, dB), dtype=object)
-            for j in range(ngen):
-                acc = acc + mix[i, j] * gens[j]
-            sub[i] = acc
+        for j in range(ngen):
+            sub[j] = gens[j]
         sub = A.wrap(sub, np.float64)
         lu_seen = []
 
@@ -212,19 +215,36 @@ def run(chk):
             continue
         chk.add_path_stats(st)
         rp = ('c20', {'what': 'hierarchy', 'dA': dA, 'dB': dB, 'ngen': ngen, 'rank': rank, 'k': kk})
+        cfg = f'[{dA}x{dB}, {ngen} generators, rank bound {rank}, k={kk}, planted combination has coefficient 1 on generator {piv}]'
         for pi, path in enumerate(paths[:2]):
             if path.status != 'return':
-                chk.add(f'has_rank_hierarchical_method raises {type(path.value).__name__} [{dA}x{dB}, {ngen} generators]', path.pc + path.facts, ir.FALSE, key='has_rank_hierarchical_method raises', replay=rp)
+                chk.add(f'has_rank_hierarchical_method raises {type(path.value).__name__} {cfg}', path.pc + path.facts, ir.FALSE, key='has_rank_hierarchical_method raises', replay=rp)
                 continue
             ret, matAAT = path.value
             Mx = A.plain(matAAT)
             same = ir.bconst(bool(lu_seen)) if not lu_seen else ir.band_all(H.eq_sc(a, b) for a, b in zip(H.elems(lu_seen[-1]), H.elems(matAAT)))
-            chk.add(f'has_rank_hierarchical_method [{dA}x{dB}, {ngen} generators, rank bound {rank}, k={kk}]: the LU test is applied to matAAT', path.pc + path.facts, same, key='has_rank_hierarchical_method routing', replay=rp)
-            if Mx.shape[0] <= 4:
-                chk.add(f'has_rank_hierarchical_method [{dA}x{dB}, {ngen} generators, rank bound {rank}, k={kk}]: det(matAAT) == 0 whenever the subspace contains an element of rank {rank - 1} '
-                        '(an exact LU has a zero pivot: the certificate cannot be True beyond rounding)', path.pc + path.facts, H.eq_sc(det_any(Mx), 0), key='has_rank_hierarchical_method: matAAT regular for a planted low-rank element', replay=rp)
-            else:
-                chk.engine_error('hierarchy', RuntimeError(f'matAAT of size {Mx.shape[0]} too large for an exact determinant'))
+            chk.add(f'has_rank_hierarchical_method {cfg}: the LU test is applied to matAAT', path.pc + path.facts, same, key='has_rank_hierarchical_method routing', replay=rp)
+            idxs = list(itertools.combinations_with_replacement(range(ngen), rank - 1 + kk))
+            if Mx.shape != (len(idxs), len(idxs)):
+                chk.add(f'has_rank_hierarchical_method {cfg}: matAAT has one row per generator multiset', [], ir.FALSE, key='has_rank_hierarchical_method shape', replay=rp)
+                continue
+            cvec = []
+            for INDEX in idxs:
+                mult = math.factorial(len(INDEX))
+                for v_ in __import__('collections').Counter(INDEX).values():
+                    mult //= math.factorial(v_)
+                term = S.as_sc(mult)
+                for i_ in INDEX:
+                    term = term * bco[i_]
+                cvec.append(term)
+            with path.resume():
+                for col in range(len(idxs)):
+                    tot = SC(ir.ZERO)
+                    for row in range(len(idxs)):
+                        tot = tot + cvec[row] * S.as_sc(Mx[row, col])
+                    chk.add(f'has_rank_hierarchical_method {cfg}: (c^T matAAT)[{col}] == 0 for the non-zero vector c = Sym^(r+k)(b): matAAT is singular whenever the subspace contains an element of rank {rank - 1} '
+                            '(an exact LU has a zero pivot: the certificate cannot be True beyond rounding)', path.pc + path.facts, H.eq_sc(tot, 0),
+                            key='has_rank_hierarchical_method: matAAT regular for a planted low-rank element', replay=rp)
     chk.stub('scipy.linalg.lu -> captured (its pivots are outside); np.linalg.eigvalsh in the independence assert -> positive')
     # ---- (c) symmetric / antisymmetric bases (ground)
     for d, r in ((2, 2), (3, 2), (3, 3), (4, 2)) if quick else ((2, 2), (3, 2), (3, 3), (4, 2), (4, 3), (2, 3)):
